@@ -1236,7 +1236,8 @@ class Context:
     def _global_parseint(self, *args):
         """Global parseInt."""
         s = to_string(args[0]) if args else ""
-        radix = to_integer(args[1]) if len(args) > 1 else 0
+        # ToInt32 of the radix; a negative one is out of range whichever way it wraps
+        radix = _to_uint32(args[1]) if len(args) > 1 else 0
         # The 0x prefix selects base 16 only when no other base was asked for
         hex_prefix = radix == 0 or radix == 16
         if radix == 0:
